@@ -98,6 +98,11 @@ PROPS["C16"] = {
         "empty message, Flush} on 8 flushing writer shapes (FlushError, Flusher, both, wrapped 1-2 levels, outer Flusher hiding inner "
         "FlushError) with no failure and with a failure at the k-th writer operation for EVERY k (accepting 0 / 1 / all bytes), some with a "
         "second later failure; seeded random messages, sequences <= 8 calls and scripts with several failures; writers that cannot flush; "
+        "9 more shapes with SEVERAL flushing layers (FlushError over Flusher, Flusher over both / over Flusher / over FlushError directly and through an "
+        "Unwrap-only layer, both over FlushError, such pairs behind an Unwrap-only layer, three flushing layers): every sequence of <= 2 calls with no failure "
+        "and a failure at every operation, a ServeHTTP sweep, and among the random shapes. Every Write / Flush of a session call is observed together with the "
+        "writer OBJECT it was made on (depth in the Unwrap chain, 0 = the writer given to Upgrade / ServeHTTP); the oracle demands that all of them arrive at the "
+        "outermost layer that can flush - at the given writer itself whenever it can flush (a buffering / compressing middleware writer is never skipped). "
         "every sequence also with a Content-Type ALREADY on the response before Upgrade (8 presets: another media type, "
         "text/event-stream with a parameter or in another case, an empty value, no value, two values), with and without a failing first flush. "
         "ServeHTTP: product of 11 writer shapes x 9 Last-Event-Id header variants (absent, empty, plain, with LF, with CR, several, empty "
